@@ -3,6 +3,7 @@ package main
 import (
 	"bufio"
 	"bytes"
+	"context"
 	"encoding/json"
 	"fmt"
 	"hash/fnv"
@@ -180,7 +181,18 @@ func pipelineWorker(args []string) {
 				shared = cuecontext.New() // bound the growth of the shared context
 			}
 			evs = append(evs, runPipeline(shared, 1, p.Src)...)
-			evs = append(evs, runPipeline(cuecontext.New(), 2, p.Src)...)
+			// run 2 is repeated; a repeat that differs from the first one is the one reported
+			r2 := runPipeline(cuecontext.New(), 2, p.Src)
+			for k := 0; k < 5; k++ {
+				again := runPipeline(cuecontext.New(), 2, p.Src)
+				if fmt.Sprint(plKey(again)) != fmt.Sprint(plKey(r2)) {
+					if fmt.Sprint(plKey(r2)) == fmt.Sprint(plKey(evs)) {
+						r2 = again
+					}
+					break
+				}
+			}
+			evs = append(evs, r2...)
 		} else {
 			evs = append(evs, runPipeline(cuecontext.New(), 3, p.Src)...)
 		}
@@ -274,10 +286,10 @@ func runBatch(r *kit.Run, progs []plProg, runs string, timeoutMs, memMB int) map
 func checkC02(r *kit.Run) {
 	r.Assumptions = []string{
 		"inputs: programs a/b/c over the 114-expression pool of Pipeline.tla (every hand-picked cyclic / erroneous program plus a seeded sample; all triples are out of reach: 10^6), byte-level mutants of four seed programs (operation x position x inserted text), and token soups of CueTokens.tla up to 2 (thorough 3) tokens",
-		"each input runs in isolated worker processes with a ceiling of 10 s and 2 GB; three runs: context used for other programs before, fresh context, another process; outputs are compared by digest of the printed CUE / JSON / YAML / error text",
-		"the CLI (cmd/cue) is not in the loop here: process isolation is provided by the worker; cue export through the binary is exercised by C12 and C07",
+		"each input runs in isolated worker processes with a ceiling of 10 s and 2 GB; three runs: context used for other programs before, fresh context (repeated six times, a differing repeat is the one recorded), another process; outputs are compared by digest of the printed CUE / JSON / YAML / error text",
+		"a subset of the inputs (all hand-picked programs and a sample) also goes three times through the cue binary built from the working tree (cue eval, cue export --out json, cue export --out cue): exit status 0 or 1 only, identical output",
 	}
-	tres, err := kit.RunTLC(kit.TLCOpts{Module: "Pipeline", CfgText: "INIT TablesInit\nNEXT Stutter\nCONSTANTS Mode = \"automaton\" Sample = 0 MaxPos = 0\n", Dump: true, Workers: 1, Timeout: 5 * time.Minute})
+	tres, err := kit.RunTLC(kit.TLCOpts{Module: "Pipeline", CfgText: "INIT TablesInit\nNEXT Stutter\nCONSTANTS Family = \"api\" Mode = \"automaton\" Sample = 0 MaxPos = 0\n", Dump: true, Workers: 1, Timeout: 5 * time.Minute})
 	if err != nil || !tres.OK() {
 		r.Fatal("Pipeline tables: %v\n%s", err, tres.Tail(20))
 	}
@@ -312,7 +324,7 @@ func checkC02(r *kit.Run) {
 		desc[id] = d
 	}
 	// 1. programs
-	res, err := kit.RunTLC(kit.TLCOpts{Module: "Pipeline", CfgText: fmt.Sprintf("INIT Init\nNEXT Stutter\nCONSTANTS Mode = \"programs\" Sample = %d MaxPos = 0\n", kit.Pick(r, 2500, 40000)), Dump: true, Seed: r.Seed + 5, Timeout: 20 * time.Minute})
+	res, err := kit.RunTLC(kit.TLCOpts{Module: "Pipeline", CfgText: fmt.Sprintf("INIT Init\nNEXT Stutter\nCONSTANTS Family = \"api\" Mode = \"programs\" Sample = %d MaxPos = 0\n", kit.Pick(r, 2500, 40000)), Dump: true, Seed: r.Seed + 5, Timeout: 20 * time.Minute})
 	if err != nil || res.TimedOut || !res.OK() {
 		r.Fatal("Pipeline programs: %v\n%s", err, res.Tail(20))
 	}
@@ -331,7 +343,7 @@ func checkC02(r *kit.Run) {
 	res.Cleanup()
 	nProgs := len(progs)
 	// 2. mutants
-	res, err = kit.RunTLC(kit.TLCOpts{Module: "Pipeline", CfgText: fmt.Sprintf("INIT Init\nNEXT Stutter\nCONSTANTS Mode = \"mutants\" Sample = %d MaxPos = 120\n", kit.Pick(r, 1500, 20000)), Dump: true, Seed: r.Seed + 6, Timeout: 20 * time.Minute})
+	res, err = kit.RunTLC(kit.TLCOpts{Module: "Pipeline", CfgText: fmt.Sprintf("INIT Init\nNEXT Stutter\nCONSTANTS Family = \"api\" Mode = \"mutants\" Sample = %d MaxPos = 120\n", kit.Pick(r, 1500, 20000)), Dump: true, Seed: r.Seed + 6, Timeout: 20 * time.Minute})
 	if err != nil || res.TimedOut || !res.OK() {
 		r.Fatal("Pipeline mutants: %v\n%s", err, res.Tail(20))
 	}
@@ -438,7 +450,7 @@ func checkC02(r *kit.Run) {
 		lines = append(lines, line)
 		ids = append(ids, p.ID)
 	}
-	cfg := "SPECIFICATION TraceSpec\nCONSTANTS Mode = \"automaton\" Sample = 0 MaxPos = 0\nCONSTRAINT Progress2\nPOSTCONDITION AllAccepted\nCHECK_DEADLOCK FALSE\n"
+	cfg := "SPECIFICATION TraceSpec\nCONSTANTS Family = \"api\" Mode = \"automaton\" Sample = 0 MaxPos = 0\nCONSTRAINT Progress2\nPOSTCONDITION AllAccepted\nCHECK_DEADLOCK FALSE\n"
 	// canary: a trace with a differing digest in run 3, one with a panic event and one that stops early must be rejected
 	canaries := 0
 	for _, p := range progs {
@@ -509,6 +521,92 @@ func checkC02(r *kit.Run) {
 		}
 		r.Violation(key, what, map[string]any{"source": p.Src, "input": desc[id], "events_matched": at})
 	}
+	// ---- the same through the cue command (Family "cli") ----
+	cueBinary = filepath.Join(kit.VerifDir(), ".build", "cue")
+	if _, err := os.Stat(cueBinary); err != nil {
+		r.Fatal("cue binary %s missing (bin/check builds it for C02)", cueBinary)
+	}
+	var cliProgs []plProg
+	step := len(progs)/kit.Pick(r, 45, 1500) + 1
+	for i, p := range progs {
+		if strings.HasPrefix(desc[p.ID], "program") && (i%step == 0 || isFixedProg(p.Src)) || (!strings.HasPrefix(desc[p.ID], "program") && i%(step*3) == 0) {
+			cliProgs = append(cliProgs, p)
+		}
+	}
+	cliEvs := make([][]plEvent, len(cliProgs))
+	kit.ParallelN(len(cliProgs), 12, func(_, i int) {
+		dir, err := os.MkdirTemp("", "vh-c02-")
+		if err != nil {
+			return
+		}
+		defer os.RemoveAll(dir)
+		os.WriteFile(filepath.Join(dir, "in.cue"), []byte(cliProgs[i].Src), 0o644)
+		for run := 1; run <= 3; run++ {
+			for _, st := range [][]string{{"cli-eval", "eval", "in.cue"}, {"cli-json", "export", "--out", "json", "in.cue"}, {"cli-cue", "export", "--out", "cue", "in.cue"}} {
+				ctx, cancel := context.WithTimeout(context.Background(), 20*time.Second)
+				cmd := exec.CommandContext(ctx, cueBinary, st[1:]...)
+				cmd.Dir = dir
+				cmd.Env = append(os.Environ(), "CUE_CACHE_DIR="+filepath.Join(dir, ".cache"), "HOME="+dir, "GOMAXPROCS=2")
+				var so, se bytes.Buffer
+				cmd.Stdout, cmd.Stderr = &so, &se
+				err := cmd.Run()
+				timedOut := ctx.Err() != nil
+				cancel()
+				e := plEvent{R: run, St: st[0], Oc: "ok", Out: so.String() + se.String()}
+				if ee, ok := err.(*exec.ExitError); ok {
+					switch {
+					case timedOut:
+						e.Oc = "timeout"
+					case ee.ExitCode() == 1:
+						e.Oc = "err"
+					default:
+						e.Oc = "crash"
+						e.Out = fmt.Sprintf("%v\n%s", err, firstLines(se.String(), 30))
+					}
+				} else if err != nil {
+					e.Oc = "crash"
+					e.Out = err.Error()
+				}
+				e.H = plDigest(e.Oc + "\x00" + e.Out)
+				cliEvs[i] = append(cliEvs[i], e)
+			}
+		}
+	})
+	var cliLines [][]byte
+	for i, p := range cliProgs {
+		line, _ := json.Marshal(map[string]any{"id": p.ID, "ev": cliEvs[i]})
+		cliLines = append(cliLines, line)
+	}
+	cliCfg := strings.Replace(cfg, `Family = "api"`, `Family = "cli"`, 1)
+	cres, err := kit.RunTLC(kit.TLCOpts{Module: "Pipeline", Cfg: "Pipeline_automaton_cli.cfg", Workers: 4, Timeout: 10 * time.Minute})
+	if err != nil || cres.TimedOut || !cres.OK() {
+		r.Fatal("Pipeline automaton (cli): %v %s\n%s", err, cres.Violation, cres.Tail(20))
+	}
+	r.AddTLC("Pipeline automaton, family cli", cres)
+	cres.Cleanup()
+	crej, ccons := kit.ValidateTraces(r, "PipelineTrace", cliCfg, cliLines, "pipeline-cli", 25)
+	for _, ri := range crej {
+		p, evs, at := cliProgs[ri], cliEvs[ri], ccons[ri]
+		what, key := "the recorded command runs are not a behaviour of Pipeline.tla (family cli)", "cli "+desc[p.ID]
+		if at < len(evs) {
+			e := evs[at]
+			key += fmt.Sprintf(" | run %d %s %s", e.R, e.St, e.Oc)
+			if e.Oc != "ok" && e.Oc != "err" {
+				what = fmt.Sprintf("cue %s did not end with exit status 0 or 1: %s\n%s", e.St, e.Oc, firstLines(e.Out, 12))
+			} else {
+				for _, e1 := range evs {
+					if e1.R == 1 && e1.St == e.St {
+						if reLetID.ReplaceAllString(e1.Out, "$1#N") == reLetID.ReplaceAllString(e.Out, "$1#N") {
+							key = "class let-id-in-output"
+						}
+						what = fmt.Sprintf("run %d of cue %s differs from run 1:\n--- run 1 (%s)\n%s\n--- run %d (%s)\n%s", e.R, e.St, e1.Oc, e1.Out, e.R, e.Oc, e.Out)
+					}
+				}
+			}
+		}
+		r.Violation(key, what, map[string]any{"source": p.Src, "input": desc[p.ID], "events_matched": at})
+	}
+	r.Set("cli_programs", len(cliProgs))
 	for i, p := range progs {
 		if i%(len(progs)/12+1) == 0 {
 			r.Sample(map[string]any{"input": desc[p.ID], "source": p.Src, "stages_run1": stageSummary(r12[p.ID].Ev)})
@@ -525,6 +623,24 @@ func checkC02(r *kit.Run) {
 	r.Set("stage_outcomes_run1", stageCount)
 	r.Set("canaries_rejected", canaries)
 	r.Set("rule", "every input is run three times (used context, fresh context, another process) in worker processes under a 10 s / 2 GB ceiling; the recorded stage events (stage, ok/err, digest of the printed output or error text) of all three runs form one trace, validated by TLC against PipelineTrace.tla: stages in order, only ok/err outcomes, the stage-consistency rules of Pipeline.tla, all three runs complete and equal event by event; non-trivial = inputs that parse")
+}
+
+// the hand-picked programs of Pipeline.tla are always sent through the command line too
+func isFixedProg(src string) bool {
+	for _, m := range []string{"a: {\"#a\": 1}\nb: {#a: 2}", "a: {>5, x!: int}\nb: {x!: int} & >5", "a: [1, 2, 3][5:]\nb: 'abc'[4:]", "a: {let L = L2", "a: a\nb: 1\nc: 1\n", "a: {x: [...x]}\nb: {x?: x}"} {
+		if strings.Contains(src, m) {
+			return true
+		}
+	}
+	return false
+}
+
+// plKey is the comparable part of a run's events.
+func plKey(evs []plEvent) (out []string) {
+	for _, e := range evs {
+		out = append(out, fmt.Sprintf("%s/%s/%d", e.St, e.Oc, e.H))
+	}
+	return out
 }
 
 func stageSummary(evs []plEvent) string {
